@@ -608,6 +608,17 @@ func Eq(a, b *Term) *Term {
 				return FalseT
 			}
 		}
+		if ba != nil && bb != nil && ba != bb && varRanges != nil {
+			ra, okA := varRanges[ba]
+			rb, okB := varRanges[bb]
+			// both bases confined (by the current path condition) to disjoint windows; offsets
+			// small enough not to wrap
+			if okA && okB && oa < 1<<32 && ob < 1<<32 && ra[1] < 1<<62 && rb[1] < 1<<62 {
+				if ra[1]+oa <= rb[0]+ob || rb[1]+ob <= ra[0]+oa {
+					return FalseT
+				}
+			}
+		}
 	}
 	if a.op == OpConst {
 		a, b = b, a
@@ -641,6 +652,58 @@ func Eq(a, b *Term) *Term {
 // farFacts: pairs of base terms assumed (in the current path condition) to be at least n
 // bytes apart, without wrap-around; lets address comparisons of two regions fold.
 var farFacts map[[2]*Term]uint64
+
+// varRanges: [lo, hi) windows that the current path condition imposes on 64-bit variables
+// (learnt from conjuncts x >= c, x < c); lets comparisons of addresses in different
+// regions (text, heap, mmap) fold.
+var varRanges map[*Term][2]uint64
+
+func noteRange(c *Term) {
+	neg := false
+	if c.op == OpBNot {
+		neg = true
+		c = c.args[0]
+	}
+	if c.op != OpUlt && c.op != OpUle {
+		return
+	}
+	a, b := c.args[0], c.args[1]
+	set := func(v *Term, lo, hi uint64, isLo bool) {
+		if v.op != OpVar || v.w != 64 {
+			return
+		}
+		if varRanges == nil {
+			varRanges = map[*Term][2]uint64{}
+		}
+		r, ok := varRanges[v]
+		if !ok {
+			r = [2]uint64{0, ^uint64(0)}
+		}
+		if isLo && lo > r[0] {
+			r[0] = lo
+		}
+		if !isLo && hi < r[1] {
+			r[1] = hi
+		}
+		varRanges[v] = r
+	}
+	switch {
+	case c.op == OpUlt && !neg && b.op == OpConst: // a < k
+		set(a, 0, b.val, false)
+	case c.op == OpUlt && neg && b.op == OpConst: // a >= k
+		set(a, b.val, 0, true)
+	case c.op == OpUle && !neg && a.op == OpConst: // k <= b
+		set(b, a.val, 0, true)
+	case c.op == OpUle && neg && a.op == OpConst: // b < k
+		set(b, 0, a.val, false)
+	case c.op == OpUlt && !neg && a.op == OpConst: // k < b
+		set(b, a.val+1, 0, true)
+	case c.op == OpUle && !neg && b.op == OpConst: // a <= k
+		if b.val != ^uint64(0) {
+			set(a, 0, b.val+1, false)
+		}
+	}
+}
 
 func Ne(a, b *Term) *Term { return BNot(Eq(a, b)) }
 
